@@ -44,7 +44,7 @@ Definition with_fakes (fs : list (string * Z * fake)) (base : adapter) : adapter
 Inductive ecls := CVce | CValue | COther | CFuel.
 Definition cls_of (e : err) : ecls :=
   match e with
-  | ENoVersion | ERefAttr | EDowngrade => CVce
+  | ENoVersion | ERefAttr | EDowngrade | ERefused => CVce
   | EValueRange | EOpsetConflict | EGhostReplace => CValue
   | EOther => COther
   | EOutOfFuel => CFuel
